@@ -595,3 +595,15 @@ def symbolic_returns(fn: ast.AST, max_paths: int = 256
                 go(s, env, conds, seen)
     go(ENTRY, {}, [], ())
     return out
+
+
+def symbolic_block(stmts: List[ast.stmt], max_paths: int = 256):
+    """symbolic_returns for a statement list (e.g. the body of a loop): loop-carried variables
+    and everything defined outside stay free names. A path that falls off the end of the block
+    is reported with return node None and the final environment as a dict name -> expression."""
+    fn = ast.FunctionDef(name="_block", args=ast.arguments(posonlyargs=[], args=[], kwonlyargs=[],
+                                                            kw_defaults=[], defaults=[]),
+                         body=list(stmts), decorator_list=[], returns=None, type_comment=None,
+                         lineno=getattr(stmts[0], "lineno", 0), col_offset=0)
+    ast.fix_missing_locations(fn)
+    return symbolic_returns(fn, max_paths)
